@@ -189,5 +189,5 @@ pub fn run(ctx: &Ctx) {
         check_pair,
     );
     let max_len = t.pick(400usize, 2000);
-    ctx.generated("random-pairs", "pair", t.pick(400_000, 3_000_000), "1..max digits, gaps 0..10^4 both directions, zero divisors, twins, exact multiples, a = -b", move || pair_strategy(max_len), check_pair);
+    ctx.generated("random-pairs", "pair", t.pick(400_000, 10_000_000), "1..max digits, gaps 0..10^4 both directions, zero divisors, twins, exact multiples, a = -b", move || pair_strategy(max_len), check_pair);
 }
